@@ -474,6 +474,18 @@ def l2_main(mods):
                     body.append(f"        dev{path}.{snake(o['name'])}().write(|_| ()).unwrap();")
         emit(d["objects"], "")
         body.append(f"        for l in &dev.interface.log {{ println!(\"{m} {{}}\", l); }}")
+        # the same through write_async: the reset value reaches the wire on the async path too (seed C08-6 started
+        # write_async from zeros)
+        body.append("        dev.interface.log.clear();")
+
+        def emit_async(objs, path):
+            for o in objs:
+                if o["kind"] == "block":
+                    emit_async(o["objects"], path + f".{snake(o['name'])}()")
+                elif o["kind"] in ("register", "ref"):
+                    body.append(f"        block_on(async {{ dev{path}.{snake(o['name'])}().write_async(|_| ()).await.unwrap(); }});")
+        emit_async(d["objects"], "")
+        body.append(f"        for l in &dev.interface.log {{ println!(\"{m}@async {{}}\", l); }}")
         for o, _ in adef.walk(d["objects"]):
             if o["kind"] == "register":
                 n = blen(o["size_bits"])
@@ -519,7 +531,7 @@ def l2_expected(m, d, model):
                 if x["kind"] == "ref" and x["target"] == o["name"] and x["override"].get("reset_value") is not None:
                     fn = "new_as_" + snake(x["name"])
                     new.append(f"{m} NEW {o['name']} {fn} {hexs(dict(s[4])[fn])}")
-    return wr + new
+    return wr + [l.replace(m + " WR", m + "@async WR", 1) for l in wr] + new
 
 
 def run_l2(ctx, exe, l2defs, hist):
@@ -549,11 +561,11 @@ def run_l2(ctx, exe, l2defs, hist):
         gs, es = collections.Counter(got), collections.Counter(expected)
         miss = sorted((es - gs).elements())
         extra = sorted((gs - es).elements())
-        bad_mods = sorted(set(l.split(" ", 1)[0] for l in miss + extra), key=lambda m: len(l2defs[int(m[1:])]["text"]))
+        bad_mods = sorted(set(l.split(" ", 1)[0].split("@")[0] for l in miss + extra), key=lambda m: len(l2defs[int(m[1:])]["text"]))
         mod = bad_mods[0]                      # the smallest definition that shows a difference
         d = l2defs[int(mod[1:])]
-        diffs.append(("l2-bytes", {"expected_by_model_not_seen": [l for l in miss if l.startswith(mod + " ")][:5],
-                                   "seen_not_expected": [l for l in extra if l.startswith(mod + " ")][:5],
+        diffs.append(("l2-bytes", {"expected_by_model_not_seen": [l for l in miss if (l.startswith(mod + " ") or l.startswith(mod + "@async "))][:5],
+                                   "seen_not_expected": [l for l in extra if (l.startswith(mod + " ") or l.startswith(mod + "@async "))][:5],
                                    "modules_with_differences": len(set(l.split(" ", 1)[0] for l in miss + extra)),
                                    "definition": describe(d)}))
     hist["l2_modules"] = len(mods)
